@@ -25,7 +25,7 @@ type c12Case struct {
 }
 
 func genC12(t *rapid.T) c12Case {
-	g := &fgen{t: t, maxAtoms: 5, maxDepth: 4, maxWidth: 3, budget: 9, quant: true, edges: 2, multiPC: rapid.Bool().Draw(t, "multiPC"), viaPaths: true, companions: true}
+	g := &fgen{t: t, maxAtoms: 5, maxDepth: 4, maxWidth: 3, budget: 9, quant: true, edges: 2, multiPC: rapid.Bool().Draw(t, "multiPC"), viaPaths: true, companions: true, constants: true}
 	if ev.Thorough() {
 		g.maxDepth, g.budget = 5, 12
 	}
